@@ -481,13 +481,28 @@ pub fn check_numeral_text(with: &Dict, without: &Dict, text: &str, standalone: O
             (v, g) => o.fail(Failure::new("joined-wrong-value", format!("{:?}: token {:?} normalised {:?}: value {:?}, parsed {:?}", text, t.surface, t.normalized, v.map(|x| x.canonical()), g.map(|x| x.canonical())))),
         }
     }
-    // well-formed numerals are joined into one token with the expected rendering
-    if let Some(num) = standalone {
+    // well-formed numerals are joined into one token with the expected rendering: every maximal
+    // run of numeral characters of the text is examined
+    let _ = standalone;
+    let mut runs: Vec<(usize, usize)> = Vec::new();
+    let mut cur: Option<usize> = None;
+    for (b, c) in text.char_indices() {
+        if ntok(c).is_some() {
+            if cur.is_none() {
+                cur = Some(b);
+            }
+        } else if let Some(st) = cur.take() {
+            runs.push((st, b));
+        }
+    }
+    if let Some(st) = cur {
+        runs.push((st, text.len()));
+    }
+    for (start, end) in runs {
+        let num = &text[start..end];
         if let Some(toks) = lex(num) {
             if let Some(expected) = well_formed(&toks) {
                 o.count("well_formed", 1);
-                let start = text.find(num).unwrap_or(0);
-                let end = start + num.len();
                 let covering: Vec<&Tok> = tw.iter().filter(|t| t.begin >= start && t.end <= end && t.begin != t.end).collect();
                 if covering.len() != 1 || covering[0].begin != start || covering[0].end != end {
                     o.fail(Failure::new("well-formed-not-joined", format!("{:?}: the well-formed numeral {:?} (= {}) is reported as {:?}", text, num, expected, covering.iter().map(|t| t.surface.clone()).collect::<Vec<_>>())));
@@ -608,7 +623,7 @@ fn renderings(d: &[u8]) -> Vec<String> {
 
 pub fn main(tier: Tier, replay: Option<String>) -> i32 {
     let mut rep = Report::new("C15", "model_checking", tier);
-    rep.rule = "states = every string within the bound over the numeral alphabet {0 1 2 5 〇 一 三 十 百 千 万 億 兆 , .}, each analysed alone and embedded as x·s·x, with and without the numeral plugin; plus every well-formed rendering (Arabic, kanji digits, comma groups, fractions, unit notation, coefficient notation) of the value grid d·10^k + e·10^j, k <= 40; non-trivial = a joined token occurred".into();
+    rep.rule = "states = every string within the bound over the numeral alphabet {0 1 2 5 〇 一 三 十 百 千 万 億 兆 , .} plus a non-numeral separator x (so that several numerals occur in one text), each analysed alone and embedded as x·s·x, with and without the numeral plugin; plus every well-formed rendering (Arabic, kanji digits, comma groups, fractions, unit notation, coefficient notation) of the value grid d·10^k + e·10^j, k <= 40; non-trivial = a joined token occurred".into();
     rep.assumptions = vec![
         "a token counts as joined when it covers more than one token of the plugin-free analysis or its normalised form was rewritten".into(),
         "units out of order may stay in pieces or be joined into their arithmetic sum; only a different value, or a join across a malformed separator, is a violation".into(),
@@ -616,8 +631,8 @@ pub fn main(tier: Tier, replay: Option<String>) -> i32 {
     let with = Arc::new(World::build(numeral_spec("W-num", true)).expect("W-num"));
     let without = Arc::new(World::build(numeral_spec("W-num-plain", false)).expect("W-num-plain"));
     let mut jobs: Vec<Box<dyn AnyJob>> = Vec::new();
-    let alpha = syms(&["1", "0", "5"], &["2", "〇", "一", "三", "十", "百", "千", "万", "億", "兆", ",", "."]);
-    let bounds = tier.pick(TreeBounds { full_len: 4, ext_len: 8, max_special: 2 }, TreeBounds { full_len: 6, ext_len: 12, max_special: 2 });
+    let alpha = syms(&["1", "0", "5"], &["2", "〇", "一", "三", "十", "百", "千", "万", "億", "兆", ",", ".", "x", ",000"]);
+    let bounds = tier.pick(TreeBounds { full_len: 4, ext_len: 7, max_special: 2 }, TreeBounds { full_len: 6, ext_len: 12, max_special: 2 });
     let b = bounds.to_json();
     jobs.push(job(NumSpace { label: "W-num/numeral-strings".into(), with: with.clone(), without: without.clone(), alpha, bounds }, Strategy::Dfs, Some(tier.pick(50, 3000)), b));
     // value grid
